@@ -51,6 +51,11 @@ def check_is_match(eng, obl, out):
             if m:
                 name = m.group(2)
         v = val_expr(ex, r.value)
+        if v is not None and name is None and not any(e[0] == "Path::get_ident" for e in r.events):
+            # decided before the attribute's name was looked at: the answer must then be right for every name, the helper names included
+            for n2 in [k for k in expected if k is not None]:
+                obl.check_unsat(ex, "is_match[decided without the name; %s]" % n2, list(r.pc) + [v != expected[n2]], info=("is_match", n2, ex), keep_smt=True)
+            continue
         if v is None or name not in expected:
             out.inconclusive.append("fn=is_match reason=unrecognised result %r for attribute name %s" % (r.value, name))
             continue
@@ -183,6 +188,39 @@ def check_entry(eng, obl, out, which):
     obl.samples.append({"function": tag, "paths": len(res), "example_events": [(e[0], e[1][0]) for e in res[-1].events][:8] if res else []})
 
 
+def check_core_kinds(eng, obl, out, which):
+    """what the entry functions filter with is the set of kinds *as the core builder leaves it*: on every way out of the core builder - also the early ones with an error -
+    the `derive_ex` flag is what it was on entry (the flag makes the filter remove the field- and variant-level `#[derive_ex(..)]` attributes)"""
+    core = "build_by_item_%s_core" % which
+    builders = {"build_binary_op", "build_assign_op", "build_unary_op", "build_compare_op_for_struct", "build_compare_op_for_enum", "build_copy_for_struct",
+                "build_clone_for_struct", "build_debug_for_struct", "build_default_for_struct", "build_deref_for_struct", "build_copy_for_enum",
+                "build_clone_for_enum", "build_debug_for_enum", "build_default_for_enum"}
+    ex = eng.executor(opaque_local=builders | {"DeriveEntry::apply_dump", "HelperAttributes::from_attrs", "FieldEntry::from_fields", "VariantEntry::from_variants",
+                                                "DeriveEntry::from_root", "HelperAttributeKinds::extend"}, slice_bound=1)
+    fn = eng.find(core)
+    res = ex.run(fn, eng.args_for(fn))
+    tag = core + ":kinds-left-behind"
+    obl.note_paths(tag, res, ex)
+    init = ex.bvar("kinds.derive_ex")
+    for r in res:
+        if r.kind == "stuck":
+            out.inconclusive.append("fn=%s reason=%s" % (tag, r.value))
+            continue
+        if r.kind != "return":
+            continue
+        v = (r.mem or {}).get(("kinds", "derive_ex"))
+        if v is None:
+            obl.total += 1
+            obl.discharged += 1  # never written
+            continue
+        e = val_expr(ex, v)
+        if e is None:
+            out.inconclusive.append("fn=%s reason=kinds.derive_ex is left with a value the executor does not follow (%r)" % (tag, v))
+            continue
+        obl.check_unsat(ex, tag, list(r.pc) + [e != init], info=("core-kinds", which, "the derive_ex flag of the attribute kinds is left as %s on a way out of %s (path %s)" % (
+            v, core, [str(c)[:60] for c in r.pc][:4])))
+
+
 class _All(set):
     def __contains__(self, x):
         return True
@@ -269,6 +307,9 @@ def replay_failures(obl, out):
         if info[0] == "remove":
             replay_remove(out, label, model, info)
             continue
+        if info[0] == "core-kinds":
+            probes.structural(out, "core-kinds|" + info[1], info[2], ["C14.strip-on-core-error", "C14.strip-on-error", "C14.strip"])
+            continue
         kind, name, ex = info
         if kind == "is_match":
             # replay: derive exactly the traits of the model through the attribute macro and look whether `#[name(..)]` on a field survives
@@ -279,7 +320,12 @@ def replay_failures(obl, out):
                 probes.structural(out, "is_match|%s" % name, "is_match(%s) disagrees with the documentation table for derived flags %s" % (name, flags), 'C14.kinds')
                 continue
             arg = {"default": "_", "debug": "ignore"}.get(name, "bound(..)")
-            item = "struct X { #[%s(%s)] f0: u8 }" % (name, arg)
+            # the form the attribute is written in (syn::Meta: Path / List / NameValue), when the path depends on it
+            form = 1
+            for d in model.decls():
+                if re.fullmatch(r"disc\(attr\.(3|meta)\)", d.name()):
+                    form = model[d].as_long()
+            item = "struct X { #[%s] f0: u8 }" % {0: name, 2: "%s = 5" % name}.get(form, "%s(%s)" % (name, arg))
             doc_owned = name in ("default", "debug") and flags[name] or name in AFFECTS and any(flags[x] for x in AFFECTS[name])
             case = {"property": PID, "kind": "stripped", "mode": "attr", "attr": ", ".join(traits), "item": item, "expected_kept": {name: not doc_owned},
                     "explain": "attribute #[%s] with derived traits %s: the documentation %s it to a derived trait" % (name, traits, "assigns" if doc_owned else "does not assign")}
@@ -330,7 +376,7 @@ def run(tier):
     eng = mir_engine.Engine()
     obl = e3.Obligations(PID)
     steps = [(check_is_match, ()), (check_extend, (2 if tier == "quick" else 3,)), (check_remove_attrs, (3 if tier == "quick" else 5,)), (check_entry, ("struct",)),
-             (check_entry, ("enum",)), (check_lib_entries, ())]
+             (check_entry, ("enum",)), (check_core_kinds, ("struct",)), (check_core_kinds, ("enum",)), (check_lib_entries, ())]
     for f, args in steps:
         # one part the executor cannot follow (a function renamed or restructured) must not take the other parts down
         try:
